@@ -184,6 +184,12 @@ func leafFacts(t *Term, spec LeafSpec) {
 	if t == nil || t.bound || t.isInt() {
 		return
 	}
+	// Facts are timeless: they may only be attached to opaque terms (symbols, reads of memory, uninterpreted
+	// applications), never to values computed by the program (a computed length is not yet known to be valid at
+	// the make/slice site that checks it).
+	if t.op != "const" && t.op != "select" && t.op != "app" {
+		return
+	}
 	switch spec.Kind {
 	case "len", "cap", "off":
 		addFact(t, And(Le(Int(0), t), Le(t, maxLen)))
@@ -203,6 +209,8 @@ func leafFacts(t *Term, spec LeafSpec) {
 	}
 }
 
+func opaque(t *Term) bool { return t.op == "const" || t.op == "select" || t.op == "app" }
+
 func valueFacts(v *Value) {
 	specs := leafSpecs(v.T)
 	for i, l := range v.L {
@@ -210,7 +218,7 @@ func valueFacts(v *Value) {
 			leafFacts(l, specs[i])
 		}
 	}
-	if _, ok := under(v.T).(*types.Slice); ok && len(v.L) == 4 && !v.L[2].bound && !v.L[3].bound {
+	if _, ok := under(v.T).(*types.Slice); ok && len(v.L) == 4 && !v.L[2].bound && !v.L[3].bound && opaque(v.L[2]) && opaque(v.L[3]) {
 		addFact(v.L[2], Le(v.L[2], v.L[3]))
 		// off+cap bounded
 	}
@@ -573,8 +581,14 @@ func (s *State) assumeAllocated(v *Value) {
 		if isRef {
 			s.assume(Le(l, s.wm))
 		}
+		if sp.Kind == "tag" && sp.Iface != nil && nonNilIfaces[typeName(sp.Iface)] {
+			s.assume(Gt(l, Int(0)))
+		}
 	}
 }
+
+// nonNilIfaces: interface types declared `nonnil` in a contract file (values loaded from memory or received are assumed non-nil).
+var nonNilIfaces = map[string]bool{}
 
 // ---- merging ----
 
